@@ -275,7 +275,10 @@ TASKS = [Init, Expired, Remaining, Start, Restart, Stop, SetTimeout]
 
 
 def tasks(tier):
-    return [T(alt) for alt in ALTERNATIVES for T in TASKS]
+    from contracts.dul_reactor import DulReactorTask
+    from contracts.C07 import RunReactorTask
+    # the two callers that turn the timers into protocol behaviour (idle timer -> network timeout)
+    return [T(alt) for alt in ALTERNATIVES for T in TASKS] + [DulReactorTask(), RunReactorTask()]
 
 
 def postprocess(results):
@@ -288,7 +291,8 @@ def postprocess(results):
             sum(1 for r in rs if r["undecided"] or r["error"])
         if best is None or bad < best[0]:
             best = (bad, alt, rs)
-    return best[2], f"clock alternative selected: {best[1]}"
+    others = [r for r in results if "@" not in r["task"]]
+    return best[2] + others, f"clock alternative selected: {best[1]}"
 
 
 def replay(rec):
